@@ -863,7 +863,6 @@ pub fn peer_sender(seed: u64, family: &str, exact: bool) -> Scenario {
     }
     opts.inactivity_ms = Some(r.log_range(2000, 60_000));
     opts.max_retx = Some(r.range(3, 6) as usize);
-    let rx_buf = opts.rx_buf();
     // packet sizes
     let mut pkts: Vec<u16> = (0..n_pkts)
         .map(|_| {
@@ -892,6 +891,25 @@ pub fn peer_sender(seed: u64, family: &str, exact: bool) -> Scenario {
         let j = (i + r.range(1, 6) as usize).min(n_pkts - 1);
         order.swap(i, j);
     }
+    // exact mode: every packet must fit a reassembly slot when it arrives: the buffer has to
+    // cover the largest distance a packet runs ahead of the in-order point
+    if exact {
+        let mut sent = vec![false; n_pkts];
+        let mut cum = 0usize;
+        let mut max_ahead = 0usize;
+        for i in &order {
+            max_ahead = max_ahead.max(i.saturating_sub(cum));
+            sent[*i] = true;
+            while cum < n_pkts && sent[cum] {
+                cum += 1;
+            }
+        }
+        let need = (max_ahead + 6) * link_v;
+        if opts.rx_buf() < need {
+            opts.rx_buf = Some(need);
+        }
+    }
+    let rx_buf = opts.rx_buf();
     // In exact mode stay inside the advertised window: never send more than what fits the
     // buffer ahead of what the reader can have taken (the reader is fast in exact mode).
     let mut in_flight_bytes: u64 = 0;
